@@ -171,7 +171,7 @@ def _postorient(ctx, cfg, prog, lv, constructors=False, drivers=None, leaves=Non
         msg_bad = ('a success exit (blocks %s) is reachable after %s succeeded without re-validating the geometric orientation: '
                    'the triangulation can be exposed with negatively oriented or degenerate cells (Level 3 invalid)' % (why.get(q), what))
         ctx.ob(rule, q, cfg, ok, msg_ok if ok else msg_bad, assumed=POSTORIENT_TABLE.get(q), site='%s:%d' % (b.file, b.line))
-    ctx.floor('exported %s that can reach %s (%s)' % ('constructors' if constructors else 'operations', what, rule), 2 if scope else 5, n, cfg)
+    ctx.floor('exported %s that can reach %s (%s)' % ('constructors' if constructors else 'operations', what, rule), 2 if scope else 3, n, cfg)
     ctx.info.setdefault('unnormalised_internal_' + rule, {})[cfg] = sorted(x for x in X - drivers if prog.bodies[x].kind != 'closure')[:40]
 
 
@@ -237,7 +237,7 @@ def _seedcover(ctx, cfg, prog, mod):
     total = 0
     for fq_ in (SEEDQ, ENQ):
         total += _seedcover_fn(ctx, cfg, prog, mod, fq_)
-    ctx.floor('cell loops in the work-list seeding functions', 3, total, cfg)
+    ctx.floor('cell loops in the work-list seeding functions', 2, total, cfg)
 
 
 def _seedcover_fn(ctx, cfg, prog, mod, SEEDQ):
@@ -564,7 +564,7 @@ def _admissible(ctx, cfg, prog, lv):
                 U.add(q)
                 changed = True
     direct = [(q, bb) for q, b in prog.bodies.items() for bb, t in b.calls() if (t.resolved or t.callee) in DRIVERS]
-    ctx.floor('call sites of the repair drivers', 9, len(direct), cfg)
+    ctx.floor('call sites of the repair drivers', 6, len(direct), cfg)
     n = 0
     for q, b in sorted(prog.bodies.items()):
         if b.kind == 'closure' or not b.exported:
